@@ -98,6 +98,41 @@ Definition prf_bad (c : content) : bool := let '(_, _, kp) := c in negb (prf_ok 
 Definition cipher_bad (c : content) : bool := let '(_, cc, _) := c in negb (bytes_eqb (cc_cipher cc) cipherAES128ctr).
 Definition core_bad (c : content) : bool := let '(cf, _, _) := c in negb ((cf_version cf =? 3)%Z && is_some (cf_id cf)).
 
+(* ---------- the property's "cost parameters capped so the KDF itself stays affordable" ---------- *)
+(* The part of that cap which is a matter of panics and not of patience: the work area of scrypt.Key,
+   make([]uint32, 32*N*r), must fit the Go runtime's allocation limit ([scrypt_alloc_ok]: 128*N*r <= 2^48);
+   beyond it the real call panics in runtime.makeslice and so does the model ([call_scrypt]).  The guard
+   is stated on what the code decodes from the document: the n and r of the scrypt pass of
+   encoding/json when the first pass names the kdf "scrypt"; a PBKDF2 file, a document that does not
+   decode, bytes that do not lex are capped. *)
+Definition kdf_cost_capped (kp : kdf_params) : bool :=
+  match kp with KScrypt sp => scrypt_alloc_ok (sp_n sp) (sp_r sp) | KPbkdf2 _ => true end.
+Definition cost_capped (P : prims) (t : json) : bool :=
+  match decode_content P t with Some (_, _, kp) => kdf_cost_capped kp | None => true end.
+Definition cost_capped_bytes (P : prims) (data : bytes) : bool :=
+  match json_parse P data with Some t => cost_capped P t | None => true end.
+
+(* the same cap in the vocabulary of the strict specification (Keystore/Spec.v): the members "n" and "r"
+   of crypto.kdfparams, read strictly; a document without them is capped.  On strictly formed scrypt
+   documents it coincides with [cost_capped] (TotalProofs4.wellformed_alloc). *)
+Definition doc_alloc_ok (doc : json) : bool :=
+  match doc with
+  | JObj top =>
+      match obj_field "crypto" top with
+      | Some c =>
+          match obj_field "kdfparams" c with
+          | Some kp =>
+              match int_field "n" kp, int_field "r" kp with
+              | Some n, Some r => scrypt_alloc_ok n r
+              | _, _ => true
+              end
+          | None => true
+          end
+      | None => true
+      end
+  | _ => true
+  end.
+
 (* ---------- strictly formed documents ---------- *)
 (* among [ms], every member whose name matches [f] the way encoding/json matches struct fields (case
    folding) is spelled exactly [f], and there is exactly one *)
